@@ -7,7 +7,7 @@ From DD Require Import Options.OptModel.
 Local Open Scope string_scope.
 
 Definition sx_ekind (e : ekind) : sx :=
-  SA (match e with EValue => "ValueError" | EType => "TypeError" end).
+  SA (match e with EValue => "ValueError" end).
 
 (* entries only (the recorded opcode paths are not an observable of C11) *)
 Definition sx_res (r : res (list entry * list path)) : sx :=
